@@ -6,7 +6,7 @@ from __future__ import annotations
 
 import ast
 
-from ..astutil import call_attr, iter_calls, iter_stores, propagate, single_assign_env, walk_local
+from ..astutil import call_attr, get_arg, iter_calls, iter_stores, propagate, single_assign_env, walk_local
 from ..exprnf import ExprEval, Poly, Rat, RatEval
 from ..flow import Flow, always_exits, path_conditions
 from ..index import AnalysisError, AnchorMissing, dotted, norm
@@ -17,9 +17,41 @@ N = U("N")
 HOVL, HDST, HSRC = U("hovl"), U("hdst"), U("hsrc")
 
 
+def _source_pairs_rule(f, blk, r):
+    """The (nuclide, density) pairs that are accumulated come from EACH overlapping source block, never from the
+    destination block (whose composition is a template: a nuclide only a source block holds must still be counted)."""
+    outer = next((n for n in f.node.body if isinstance(n, ast.For) and isinstance(n.target, ast.Tuple)), None)
+    if outer is None:
+        raise AnalysisError("setNumberDensitiesFromOverlaps: loop over (block, overlap height) pairs not found")
+    src = outer.target.elts[0].id
+    inner = next((n for n in walk_local(outer) if isinstance(n, ast.For) and n is not outer), None)
+    if inner is None:
+        raise AnalysisError("setNumberDensitiesFromOverlaps: loop over nuclide densities not found")
+    defs = {}
+    for st in walk_local(f.node):
+        if isinstance(st, ast.Assign) and len(st.targets) == 1 and isinstance(st.targets[0], ast.Name):
+            defs.setdefault(st.targets[0].id, []).append(st.value)
+
+    def roots(e, seen=frozenset()):
+        out = set()
+        for n in ast.walk(e):
+            if isinstance(n, ast.Name) and isinstance(n.ctx, ast.Load) and n.id not in ("zip", "dict", "list", "sorted", "enumerate"):
+                if n.id in defs and n.id not in seen:
+                    for v in defs[n.id]:
+                        out |= roots(v, seen | {n.id})
+                else:
+                    out.add(n.id)
+        return out
+    rs = roots(inner.iter)
+    r.require(src in rs and blk not in rs, "N:pairs-from-each-source-block", f, node=inner,
+              msg=f"the nuclides accumulated are taken from {sorted(rs)}: they must come from the overlapping source block `{src}` alone; taking the nuclide list from the "
+                  f"destination `{blk}` loses every nuclide that only a source block holds (atoms are not conserved)")
+
+
 def r1_roles(idx, r):
     f = idx.func(UM + ".setNumberDensitiesFromOverlaps")
     blk, info = f.params()[:2]
+    _source_pairs_rule(f, blk, r)
 
     def hook(call, ev):
         if call_attr(call) == "getHeight" and isinstance(call.func, ast.Attribute):
@@ -75,6 +107,29 @@ def r1_roles(idx, r):
     r.require(gb is not None and norm(gb.func.value) == "sourceAssembly" and [norm(a) for a in gb.args] == ["zLower", "zUpper"], "state:overlaps-from-source", g, node=gb, msg="overlaps are those of the SOURCE assembly with the destination block's elevations")
     st = next((c for c in iter_calls(g.node) if call_attr(c) == "paramSetter"), None)
     r.require(st is not None and [norm(a) for a in st.args] == ["destBlock", "updatedDestVals.values()", "updatedDestVals.keys()"], "state:set-on-destination", g, node=st, msg="the mapped values are set on the destination block, values and names from the same dict")
+
+    # the setter the mapped values go through: every value is stored except None
+    ps = idx.method(UM + ".ParamMapper", "paramSetter")
+    if ps is None:
+        raise AnchorMissing("ParamMapper.paramSetter")
+    loop = next((n for n in ps.node.body if isinstance(n, ast.For)), None)
+    if loop is None or not isinstance(loop.target, ast.Tuple):
+        raise AnalysisError("paramSetter: loop over (name, value) pairs not found")
+    vname = loop.target.elts[1].id
+
+    def evs(n):
+        if isinstance(n, ast.Call) and call_attr(n) in ("_arrayParamSetter", "_scalarParamSetter"):
+            return ["stored"]
+        if isinstance(n, ast.Compare) and norm(n) == f"{vname} is None":
+            return ["none-test"]
+        return []
+    fl = Flow(ps.node, evs, body=loop.body, assume=lambda t: False if norm(t) == f"{vname} is None" else None).run()
+    unstored = [e for e in fl.exits if e.kind in ("fall", "continue") and e.state.get("stored", (0, 0))[0] < 1]
+    from ..astutil import truthiness_uses
+    tr = truthiness_uses(ps.node, {vname})
+    r.require(not unstored and not tr, "setter:only-None-skipped", ps, node=(tr[0] if tr else loop),
+              msg=f"a mapped value that is not None can leave paramSetter without being stored{' (`' + vname + '` is tested for truth: exact zeros are skipped)' if tr else ''}: "
+                  "the destination keeps the stale value of an earlier mapping wherever the new value is 0")
 
 
 def r1b_height_ratios(idx, r):
@@ -173,6 +228,55 @@ def r4_mesh_filter(idx, r):
     # candidates only: the list is only ever filtered, never extended
     adds = [s for s in iter_stores(wl) if s.chain == "meshList" and s.kind == "mutcall" and s.method != "pop"]
     r.require(not adds, "only-candidate-points", f, msg="the filter may only remove points")
+
+    # callers: the anchor points handed to the filter must come from the points being filtered, or an "anchored"
+    # boundary is not in the candidate list at all and silently disappears from the mesh
+    d = idx.method(UM + ".UniformMeshGenerator", "_decuspAxialMesh")
+    if d is None:
+        raise AnchorMissing("UniformMeshGenerator._decuspAxialMesh")
+    defs = {}
+    for st in walk_local(d.node):
+        if isinstance(st, ast.Assign) and len(st.targets) == 1:
+            t = st.targets[0]
+            for nm in ([t] if isinstance(t, ast.Name) else (t.elts if isinstance(t, ast.Tuple) else [])):
+                if isinstance(nm, ast.Name):
+                    defs.setdefault(nm.id, []).append(st.value)
+
+    def sources(e, seen=frozenset()):
+        """leaf data names an expression is built from; a _filterMesh result is a subset of its first argument"""
+        out = set()
+        if isinstance(e, ast.Call) and call_attr(e) == "_filterMesh" and e.args:
+            return sources(e.args[0], seen)
+        for n in ast.walk(e):
+            if isinstance(n, ast.Name) and isinstance(n.ctx, ast.Load) and n.id not in ("self", "list", "set", "sorted", "Flags", "np"):
+                if n.id in seen:
+                    continue
+                ds = defs.get(n.id)
+                if not ds:
+                    out.add(n.id)
+                    continue
+                for v in ds:
+                    if isinstance(v, ast.Call) and call_attr(v) != "_filterMesh":
+                        out.add(n.id)  # produced by a helper: a leaf, plus what the helper was given
+                        for a in v.args:
+                            out |= sources(a, seen | {n.id})
+                    else:
+                        out |= sources(v, seen | {n.id})
+            elif isinstance(n, ast.Attribute) and dotted(n) == "self._commonMesh":
+                out.add("self._commonMesh")
+        return out
+
+    calls = [c for c in iter_calls(d.node) if call_attr(c) == "_filterMesh"]
+    if len(calls) < 3:
+        raise AnalysisError(f"_decuspAxialMesh: {len(calls)} _filterMesh calls found, expected the four merging passes")
+    for i, c in enumerate(calls):
+        anchors = get_arg(c, 2, "anchorPoints")
+        mesh = get_arg(c, 0, "meshList")
+        sa, sm = sources(anchors), sources(mesh)
+        missing = sorted(sa - sm)
+        r.require(not missing, f"decusp:pass{i}:anchors-among-candidates", d, node=c,
+                  msg=f"pass {i + 1} anchors `{norm(anchors)[:40]}` (built from {sorted(sa)}) but filters `{norm(mesh)[:50]}` (built from {sorted(sm)}): "
+                      f"{missing} are anchored without being candidates, so the boundaries that WERE added here are not protected and can be dropped")
 
 
 def r5_resample(idx, r):
